@@ -88,7 +88,9 @@ def shape_spec(rng, version, tier, name='shape', want_skin=None, allow_kinds=Tru
     if rng.chance(0.15):
         s['lockednorm'] = True
     if version in ('OB', 'FO3') and rng.chance(0.25):
-        s['legacy_texturing'] = True   # NiTexturingProperty -> NiSourceTexture with file names as exporters leave them
+        s['legacy_texturing'] = True
+    if version == 'OB' and rng.chance(0.2):
+        s['two_uv_sets'] = True   # NiTexturingProperty -> NiSourceTexture with file names as exporters leave them
     return s
 
 
